@@ -236,7 +236,11 @@ def edge_values(kind):
     """Edge alphabet of a value kind (contains the values equal to the
     defaults of every column of that kind: those are elided by some writers)."""
     if kind == "bytes":
-        return [b"", b"\x00", b"a", b"\xff\xfe\x00", b"dflt", sized(300, 0)]
+        # incl. values that look like a column's own framing: a complete zlib
+        # stream (of nothing / of text) and a pickle
+        import zlib
+        return [b"", b"\x00", b"a", zlib.compress(b""), b"dflt", sized(300, 0), b"\xff\xfe\x00",
+                zlib.compress(b"abc" * 20), b"\x80\x02K\x01."]
     if kind == "fixed3":
         return [b"\x00\x00\x00", b"zzz", b"abc", b"\xff\xff\xff", b"\x00\x00\x01"]
     if kind.startswith("num:"):
@@ -1094,6 +1098,30 @@ def observe(ix, cfgs, stored, colexp, deleted, stats):
                 for i in live:
                     actual[(c.name, i)] = e
             if cr is not None:
+                # the same reader object asked in descending, then in
+                # ascending document order: the answer for a document must not
+                # depend on which one was asked for before
+                order_bad = None
+                try:
+                    desc = dict((i, cr[docnum[i]]) for i in sorted(live, key=lambda i: -docnum[i]))
+                    asc = dict((i, cr[docnum[i]]) for i in sorted(live, key=lambda i: docnum[i]))
+                    for i in live:
+                        if not agree(desc[i], asc[i]):
+                            order_bad = "index column_reader(%s)[doc of k%d] -> %s when documents are asked for in descending order, %s in ascending order" % (
+                                c.name, i, short(desc[i]), short(asc[i]))
+                            break
+                except Exception as e:
+                    try:
+                        for i in sorted(live, key=lambda i: docnum[i]):
+                            cr[docnum[i]]
+                        order_bad = "index column_reader(%s): reading documents in descending order raised %r, ascending order works" % (c.name, e)
+                    except Exception:
+                        pass
+                    cr = r.column_reader(c.name)
+                if order_bad is not None:
+                    out.append((None, "MultiReader.column_reader|access-order", "wrong", "segment sizes %r: %s" % (
+                        [l.doc_count_all() for l, _ in leaves], order_bad)))
+                    cr = r.column_reader(c.name)
                 for i in live:
                     try:
                         g = cr[docnum[i]]
